@@ -146,7 +146,13 @@ struct Library {
     us.push_back(cubical(4, 2, 0));        // 9
     us.push_back(cubical(2, 2, 1));        // 10
     us.push_back(cubical(2, 1, 1));        // 11
+    // large universes (thorough tier: complexes of 150-300 cells)
+    us.push_back(full_simplicial(9, 3));   // 12: 255 cells
+    us.push_back(full_simplicial(10, 2));  // 13: 175 cells
+    us.push_back(cubical(4, 4, 1));        // 14: 243 cells
+    us.push_back(cubical(3, 3, 2));        // 15: 245 cells
   }
+  static constexpr int kFirstBig = 12, kNumBig = 4;
   static const Library& get() { static Library l; return l; }
 };
 
@@ -158,9 +164,13 @@ struct Filtration {
   std::vector<int> upos;                // universe cell -> position (valid when present)
   std::vector<oracle::Cell> cells;      // the filtered complex, boundaries by position
   std::vector<int> ucell;               // position -> universe index (or -1)
+  // Z_p, universe classes: the basis cell at position j is s_j times the universe cell (s_j a unit), i.e. the coefficient of
+  // face f in the boundary of j is sign * s_j / s_f.  A change of basis of the chain complex: dd = 0 is kept.
+  bool rescale = false;
+  std::vector<i64> scale;               // position -> s_j
 
   void init(const Universe* u, i64 p_) {
-    U = u; p = p_; cells.clear(); ucell.clear();
+    U = u; p = p_; cells.clear(); ucell.clear(); scale.clear();
     if (U) { present.assign(U->cells.size(), 0); upos.assign(U->cells.size(), -1); }
   }
   size_t size() const { return cells.size(); }
@@ -172,7 +182,25 @@ struct Filtration {
   void pop() {
     if (cells.empty()) return;
     if (U) { int u = ucell.back(); present[u] = 0; upos[u] = -1; }
-    cells.pop_back(); ucell.pop_back();
+    cells.pop_back(); ucell.pop_back(); scale.pop_back();
+  }
+
+  // no cell of the complex has the cell at position q in its boundary
+  bool maximal(size_t q) const {
+    for (size_t j = q + 1; j < cells.size(); ++j)
+      for (auto& f : cells[j].bdry) if ((size_t)f.first == q) return false;
+    return true;
+  }
+  // removes the (maximal) cell at position q; the younger cells move down by one position
+  void erase_at(size_t q) {
+    if (q + 1 == cells.size()) { pop(); return; }
+    if (U) {
+      int u = ucell[q]; present[u] = 0; upos[u] = -1;
+      for (size_t j = q + 1; j < cells.size(); ++j) upos[ucell[j]] = (int)j - 1;
+    }
+    cells.erase(cells.begin() + q); ucell.erase(ucell.begin() + q); scale.erase(scale.begin() + q);
+    for (size_t j = q; j < cells.size(); ++j)
+      for (auto& f : cells[j].bdry) if ((size_t)f.first > q) --f.first;
   }
 
  private:
@@ -193,10 +221,19 @@ struct Filtration {
     if (sel.empty()) sel = cand;
     int u = sel[r.below(sel.size())];
     oracle::Cell c; c.dim = U->cells[u].dim;
-    for (auto& f : U->cells[u].facets) c.bdry.emplace_back(upos[f.first], (i64)f.second);
+    i64 sj = 1;
+    if (rescale && p > 2 && r.chance(1, 3)) sj = 1 + (i64)r.below((uint64_t)(p - 1));
+    for (auto& f : U->cells[u].facets) {
+      i64 co = (i64)f.second;
+      if (rescale && p > 2) {
+        co = oracle::mod_norm(oracle::mod_norm(co, p) * sj % p * oracle::mod_inv(scale[upos[f.first]], p), p);
+        if (co > p / 2) co -= p;
+      }
+      c.bdry.emplace_back(upos[f.first], co);
+    }
     std::sort(c.bdry.begin(), c.bdry.end());
     present[u] = 1; upos[u] = (int)cells.size();
-    cells.push_back(c); ucell.push_back(u);
+    cells.push_back(c); ucell.push_back(u); scale.push_back(sj);
     return true;
   }
 
@@ -211,13 +248,13 @@ struct Filtration {
       k = x < 18 ? 0 : x < 55 ? 1 : x < 88 ? 2 : 3;
     }
     oracle::Cell c;
-    if (k == 0) { c.dim = 0; cells.push_back(c); ucell.push_back(-1); return true; }
+    if (k == 0) { c.dim = 0; cells.push_back(c); ucell.push_back(-1); scale.push_back(1); return true; }
     if (k == 1) {
       std::vector<int> vs; for (size_t i = 0; i < cells.size(); ++i) if (cells[i].dim == 0) vs.push_back((int)i);
       int a = vs[r.below(vs.size())], b = vs[r.below(vs.size())];
       if (a == b) { b = vs[(std::find(vs.begin(), vs.end(), a) - vs.begin() + 1) % vs.size()]; }
       c.dim = 1; c.bdry = {{std::min(a, b), -1}, {std::max(a, b), 1}};
-      cells.push_back(c); ucell.push_back(-1); return true;
+      cells.push_back(c); ucell.push_back(-1); scale.push_back(1); return true;
     }
     oracle::Reduction red = oracle::reduce(cells, p, true);
     std::vector<int> zc;
@@ -236,7 +273,7 @@ struct Filtration {
     if (z.empty()) oracle::col_axpy(z, 1, red.V[zc[r.below(zc.size())]], p);
     c.dim = k;
     for (auto& kv : z) c.bdry.emplace_back(kv.first, kv.second > p / 2 ? kv.second - p : kv.second);
-    cells.push_back(c); ucell.push_back(-1);
+    cells.push_back(c); ucell.push_back(-1); scale.push_back(1);
     return true;
   }
   bool grow_algebraic_fallback(vh::Rng& r, int k) {
@@ -249,7 +286,7 @@ struct Filtration {
         oracle::Col z; oracle::col_axpy(z, 1, red.V[zc[r.below(zc.size())]], p);
         c.dim = 2;
         for (auto& kv : z) c.bdry.emplace_back(kv.first, kv.second > p / 2 ? kv.second - p : kv.second);
-        cells.push_back(c); ucell.push_back(-1);
+        cells.push_back(c); ucell.push_back(-1); scale.push_back(1);
         return true;
       }
     }
@@ -257,7 +294,7 @@ struct Filtration {
     int a = vs[r.below(vs.size())], b = vs[r.below(vs.size())];
     if (a == b) { b = vs[(std::find(vs.begin(), vs.end(), a) - vs.begin() + 1) % vs.size()]; }
     c.dim = 1; c.bdry = {{std::min(a, b), -1}, {std::max(a, b), 1}};
-    cells.push_back(c); ucell.push_back(-1);
+    cells.push_back(c); ucell.push_back(-1); scale.push_back(1);
     return true;
   }
 };
